@@ -54,7 +54,7 @@ def handle (j : Json) : R (List (String × Json)) := do
     let es := Lkh.surgery path bs js
     -- the specification on the implementation's own answer
     let implR ← optOf (listOf asNat) (← fld impl "r")
-    let nodup := path.eraseDups.length == path.length
+    let nodup := nodupB path
     let hyp := nodup && js.all (fun e => path.contains e.1 && path.contains e.2)
     let oracle : List (String × Json) :=
       match implR with
@@ -79,7 +79,7 @@ def handle (j : Json) : R (List (String × Json)) := do
     match impl.getObjVal? "paths" with
     | .ok ps =>
       let paths ← listOf (listOf asNat) ps
-      let nodup := path.eraseDups.length == path.length
+      let nodup := nodupB path
       return [("model", Json.null), ("oracle", Json.mkObj [
         ("returned", bool true),
         ("nonempty", bool (!paths.isEmpty)),
